@@ -96,6 +96,25 @@ def select(lines, budget, rng):
         rng.shuffle(tail)
         got += (head + tail)[:max(0, b - len(got))]
         out += got
+    # two-call cover: every ordered pair (call kind and type number, next call with its arguments and outcome)
+    # that some thread of some exported program makes is made by a selected program
+    def pairs(p):
+        ks = set()
+        for th in p["progs"]:
+            for c1, c2 in zip(th, th[1:]):
+                ks.add((c1["op"], c1["t"], c2["op"], c2["t"], c2["v"], c2["s"], c2.get("out", "")))
+        return ks
+    have = set()
+    chosen = set(id(p) for p in out)
+    for p in out:
+        have |= pairs(p)
+    for p in progs:
+        if id(p) in chosen:
+            continue
+        new = pairs(p) - have
+        if new:
+            out.append(p)
+            have |= new
     return out
 
 
